@@ -264,7 +264,7 @@ def DeltaR(eta1, phi1, eta2, phi2):
 
 
 def base_env():
-    env = {"_vm_mod": _vm_mod, "_vm_div": _vm_div, "Range": Range, "isNonnull": isNonnull, "DeltaR": DeltaR, "abs": abs, "pow": pow}
+    env = {"_vm_mod": _vm_mod, "_vm_div": _vm_div, "vm_const": (lambda v: v), "Range": Range, "isNonnull": isNonnull, "DeltaR": DeltaR, "abs": abs, "pow": pow}
     for n in dir(math):
         if not n.startswith("_") and callable(getattr(math, n)):
             env[n] = getattr(math, n)
